@@ -163,6 +163,12 @@ func (s LocalStore) Verify(ctx context.Context, n int, repair bool, w io.Writer)
 		if err != nil {
 			return nil
 		}
+		// Only look at the store's own chunk files. A file with a chunk-like name
+		// somewhere else (wrong directory, upper-case name) is not where this
+		// store reads or removes that chunk.
+		if _, p := s.nameFromID(id); p != path {
+			return nil
+		}
 		// Feed the workers
 		ids <- id
 		return nil
